@@ -176,7 +176,13 @@ func oracleC01(w *World, op *Op) {
 		s.Violate("queued-leaf", "identity-hash", "op%03d sub%d: LeafIdentityHash %x is not SHA-256 of the submitted leaf certificate", op.ID, sub.ID, req.Leaf.LeafIdentityHash)
 		return
 	}
-	if !w.mode.External {
+	if w.mode.External {
+		// the chain may be handed over by reference: then the reference must resolve, in the chain store, to the validated chain
+		if why := w.x.queuedExtraOK(sub, req.Leaf.ExtraData); why != "" {
+			s.Violate("queued-leaf", "extra-data-external", "op%03d sub%d (root included in submission: %v, store faults on this request: %v): the queued leaf does not carry the validated chain, in full or by a hash the chain store resolves to it: %s", op.ID, sub.ID, sub.IncludeRoot, op.StoreOps, why)
+			return
+		}
+	} else {
 		if !sub.extraOK(req.Leaf.ExtraData) {
 			s.Violate("queued-leaf", "extra-data", "op%03d sub%d (root included in submission: %v, re-issued root exists: %v): ExtraData is not the validated chain with the root (%d bytes, want %d)", op.ID, sub.ID, sub.IncludeRoot, sub.RootAlt != nil, len(req.Leaf.ExtraData), len(sub.ExtraData()))
 			return
